@@ -566,3 +566,57 @@ Lemma glyph_record_preserved_kept F gids unis retain notdef gl g g' :
 Proof.
   intros kept. apply glyph_record_preserved_l; [apply kept_sorted|apply kept_nonneg].
 Qed.
+
+(* ------------------------------------------------------------------ no junk: the closure stays inside every
+   component-closed set that contains the roots (so, with Closure.v, kept = least such set) *)
+Lemma clos_within F (S : Z -> Prop) :
+  (forall g cs h c, S g -> glyph_at F g = GC cs h -> In c cs -> S c) ->
+  forall fuel gid set op d, S gid -> (forall x, In x set -> S x) ->
+  forall x, In x (fst (clos fuel F gid (set, op) d)) -> S x.
+Proof.
+  intros HS. induction fuel as [|fuel IH]; intros gid set op d Hg Hset x; cbn [clos]; [apply Hset|].
+  destruct (memz gid set); [apply Hset|].
+  assert (Hset1 : forall y, In y (gid :: set) -> S y) by (intros y [<-|Hy]; [exact Hg|apply Hset, Hy]).
+  destruct (64 <? d); [apply Hset1|].
+  destruct (op - 1 <? 0); [apply Hset1|].
+  destruct (glyph_at F gid) as [|h1| |cs h|] eqn:Hgl; try apply Hset1.
+  assert (Hgen : forall l st, (forall c, In c l -> S c) -> (forall y, In y (fst st) -> S y) ->
+            forall y, In y (fst (fold_left (fun st c => clos fuel F c st (d + 1)) l st)) -> S y).
+  { induction l as [|c l IHl]; intros st Hl Hst y; cbn [fold_left]; [apply Hst|].
+    apply IHl; [intros c0 Hc0; apply Hl; right; exact Hc0|].
+    destruct st as [s o]. apply IH; [apply Hl; left; reflexivity|exact Hst]. }
+  apply Hgen; [|exact Hset1]. intros c Hc. eapply HS; eauto.
+Qed.
+
+Lemma glyf_closure_within F (S : Z -> Prop) roots budget :
+  (forall g cs h c, S g -> glyph_at F g = GC cs h -> In c cs -> S c) ->
+  (forall r, In r roots -> S r) ->
+  forall x, In x (glyf_closure F roots budget) -> S x.
+Proof.
+  intros HS Hr. unfold glyf_closure.
+  assert (Hgen : forall l set, (forall r, In r l -> S r) -> (forall y, In y set -> S y) ->
+     forall y, In y (fold_left (fun set g => fst (clos closure_fuel F g (set, budget) 0)) l set) -> S y).
+  { induction l as [|r l IHl]; intros set Hl Hset y; cbn [fold_left]; [apply Hset|].
+    apply IHl; [intros r0 Hr0; apply Hl; right; exact Hr0|].
+    apply clos_within; [exact HS|apply Hl; left; reflexivity|exact Hset]. }
+  apply Hgen; [exact Hr|intros y []].
+Qed.
+
+(* the roots of the glyf closure: .notdef, requested ids, glyphs of retained characters, UVS glyphs, COLR reach *)
+Definition closure_roots (F : afont) (gids unis : list Z) : list Z :=
+  view (f_n F) (colred_set F (gsub_set F gids unis)).
+
+Lemma closure_minimal_l F gids unis (S : Z -> Prop) :
+  (forall g cs h c, S g -> glyph_at F g = GC cs h -> In c cs -> S c) ->
+  (forall r, In r (closure_roots F gids unis) -> S r) ->
+  forall x, In x (kept_glyphs F gids unis) -> S x.
+Proof.
+  intros HS Hr x Hx. unfold kept_glyphs in Hx. apply In_view in Hx. destruct Hx as [_ Hx].
+  eapply glyf_closure_within; eauto.
+Qed.
+
+Lemma closure_roots_kept F gids unis r : In r (closure_roots F gids unis) -> In r (kept_glyphs F gids unis).
+Proof.
+  intros H. unfold kept_glyphs. apply In_view. split; [apply In_view in H; tauto|].
+  apply glyf_closure_roots. exact H.
+Qed.
